@@ -142,7 +142,10 @@ def terminal_code(p, params, term, n):
         s += cmp_opt(k, "find does not return the first match in source order")
     elif term == "first":
         s += f"    let r = {par}.first();\n    ORACLE.store(true, AO::Relaxed);\n    let e = {seq}.next();\n"
-        s += cmp_opt(k, "first does not return the first element in source order")
+        code = cmp_opt(k, "first does not return the first element in source order")
+        if not any(o.kind in ("filter", "filter_map", "flat_map") for o in p.ops):
+            code = code.replace("    kani::cover!(e.is_none());\n", "")  # nothing can remove the first element
+        s += code
     elif term == "any":
         s += f"    let pf = {pred(k, True)};\n    let r = {par}.any({pred(k)});\n    ORACLE.store(true, AO::Relaxed);\n    let e = {seq}.any(|x| pf(&x));\n"
         s += '    assert!(r == e, "any differs");\n    kani::cover!(e);\n    kani::cover!(!e);\n'
@@ -165,7 +168,8 @@ def terminal_code(p, params, term, n):
             s += '    assert!(r.map(|x| (x.0, *x.1)) == e.map(|x| (x.0, *x.1)), "index/value is not that of the first match in the source");\n'
         else:
             s += '    assert!(r == e, "index/value is not that of the first match in the source");\n'
-        s += "    kani::cover!(e.is_none());\n    kani::cover!(matches!(e, Some((i, _)) if i > 0));\n"
+        if term == "find_with_index" or any(o.kind in ("filter", "filter_map", "flat_map") for o in p.ops):
+            s += "    kani::cover!(e.is_none());\n    kani::cover!(matches!(e, Some((i, _)) if i > 0));\n"
     elif term in ("reduce_nc", "reduce_sub"):
         assert k == "val"
         op = {"reduce_nc": "a.wrapping_mul(31) ^ b", "reduce_sub": "a.wrapping_sub(b)"}[term]
